@@ -61,7 +61,8 @@ func (self *Compiler) mangleVar(input string) string {
 		self.varNameMangle[input]++
 	}
 
-	mangled := fmt.Sprintf("@%s_%s%d", self.currModule, input, cnt)
+	// The counter is set apart from the name: the first `x1` and the eleventh `x` get different names.
+	mangled := fmt.Sprintf("@%s.%s.%d", self.currModule, input, cnt)
 	(*self.currScope)[input] = mangled
 
 	return mangled
